@@ -172,8 +172,54 @@ func c16History(op string, mask, f, a uint8) string {
 				n, op, c.AF.Lo, c.AF.Hi, got, c.Alternate != alt, wantF, a)
 		}
 	}
+	// (c) called from inside a device callback while the CPU executes an instruction that leaves F alone
+	// (IN A,(n) through the port device, LD A,(HL) through the memory): the effect is immediate there too
+	for _, via := range []string{"IO.In", "Memory.Get"} {
+		var c z80.CPU
+		var inside string
+		cb := func() uint8 {
+			got := apply(&c)
+			if (op == "GetFlag" && got != anyBit) || c.AF.Lo != wantF {
+				inside = fmt.Sprintf("called from %s during a Step: %s gives F=%02x result=%v, want F=%02x", via, op, c.AF.Lo, got, wantF)
+			}
+			return ^a
+		}
+		if via == "IO.In" {
+			c.Memory, c.IO = &nopMem{code: [4]uint8{0xDB, 0x10, 0x00, 0x00}}, cbIO(cb)
+		} else {
+			c.Memory = &cbMem{code: [4]uint8{0x7E, 0x00, 0x00, 0x00}, at: 0x4000, cb: cb}
+			c.HL.SetU16(0x4000)
+		}
+		c.AF.Hi, c.AF.Lo = a, f
+		c.Step()
+		if inside != "" {
+			return inside
+		}
+		if c.AF.Lo != wantF || c.AF.Hi != ^a {
+			return fmt.Sprintf("%s called from %s during a Step that leaves F alone: afterwards F=%02x A=%02x, want F=%02x A=%02x", op, via, c.AF.Lo, c.AF.Hi, wantF, ^a)
+		}
+	}
 	return ""
 }
+
+type cbIO func() uint8
+
+func (f cbIO) In(uint8) uint8   { return f() }
+func (f cbIO) Out(uint8, uint8) {}
+
+type cbMem struct {
+	code [4]uint8
+	at   uint16
+	cb   func() uint8
+}
+
+func (m *cbMem) Get(a uint16) uint8 {
+	if a == m.at {
+		return m.cb()
+	}
+	return m.code[a&3]
+}
+func (m *cbMem) Set(uint16, uint8) {}
 
 func c16Reg(v uint16) string {
 	var r z80.Register
@@ -232,7 +278,7 @@ func TestC16(t *testing.T) {
 	col := stats.New("C16")
 	defer finish(t, col)
 	col.Exhaustive = true
-	col.Rule = "complete enumeration: {GetFlag,SetFlag,ResetFlag} x 256 masks x 256 F x 256 A (via GPR and via CPU), 8 constants, " +
+	col.Rule = "complete enumeration: {GetFlag,SetFlag,ResetFlag} x 256 masks x 256 F x 256 A (via GPR and via CPU; one combination in 16 also on a struct copy of a used CPU value, after executed EX AF,AF' / EXX, and called from inside an IO.In / Memory.Get callback during a Step), 8 constants, " +
 		"SetU16/U16/Hi/Lo x 65536 values; non-trivial = mask not in {0x00,0xFF} (flag ops) or any register value; distinct by construction"
 
 	if m := c16Consts(); m != "" {
